@@ -691,6 +691,37 @@ func (ex *Exec) jsonEqual(a, b Value, fr *frame) Value {
 	return ex.jsonEqualResolved(*ra, *rb, fr)
 }
 
+// elemIface: the element of a Go-typed container ([]string, map[string]string, []int ...) as an interface
+// value of the static element type; elements of []interface{} / map[string]interface{} are interfaces already.
+func elemIface(v Value, container types.Type, isMap bool) Value {
+	switch v.(type) {
+	case Iface, *Lazy:
+		return v
+	}
+	if container == nil {
+		return v
+	}
+	var et types.Type
+	switch u := container.Underlying().(type) {
+	case *types.Map:
+		et = u.Elem()
+	case *types.Slice:
+		et = u.Elem()
+	case *types.Array:
+		et = u.Elem()
+	}
+	if et == nil {
+		return v
+	}
+	if _, isIface := et.Underlying().(*types.Interface); isIface {
+		if v == nil {
+			return Iface{}
+		}
+		return v
+	}
+	return Iface{T: et, V: v}
+}
+
 func resolvedIface(v Value) *Iface {
 	switch x := v.(type) {
 	case Iface:
@@ -791,7 +822,7 @@ func (ex *Exec) jsonEqualResolved(a, b Iface, fr *frame) Value {
 				if kt, ok := k.(*smt.Term); ok && ex.pcSet[smt.Not(kt).S] {
 					continue
 				}
-				v := ex.jsonEqual(x.V, y.V, fr)
+				v := ex.jsonEqual(elemIface(x.V, a.T, true), elemIface(y.V, b.T, true), fr)
 				any = orV(any, andV(k, v))
 				if kb, ok := k.(bool); ok && kb {
 					break
@@ -810,7 +841,7 @@ func (ex *Exec) jsonEqualResolved(a, b Iface, fr *frame) Value {
 		}
 		var acc Value = true
 		for i := 0; i < sa.Len; i++ {
-			acc = andV(acc, ex.jsonEqual(sa.Arr.E[sa.Off+i].V, sb.Arr.E[sb.Off+i].V, fr))
+			acc = andV(acc, ex.jsonEqual(elemIface(sa.Arr.E[sa.Off+i].V, a.T, false), elemIface(sb.Arr.E[sb.Off+i].V, b.T, false), fr))
 			if ab, ok := acc.(bool); ok && !ab {
 				return false
 			}
